@@ -120,7 +120,7 @@ def _eval_poly(case):
         scale = tab.tabs(t)
         tol = mp.mpf("1e-10") * scale + mp.mpf("1e-13") * _mpf(vmax)
         dev = abs(_mpf(c) - ref)
-        if scale > 0:
+        if scale > 0 and dev <= tol:
             max_rel = max(max_rel, float(dev / scale))
         if dev > tol:
             res.fail(
@@ -141,7 +141,7 @@ def _eval_poly(case):
                 f"{name}/not-a-degree-{d}-polynomial",
                 f"{name}({nf}) = {float(vals[nf])!r} but the polynomial through nf=0..{d} gives {mp.nstr(_mpf(p), 17)}",
             )
-    res.info = {"max_rel_dev_monomial": max_rel, "max_rel_dev_offlattice_nf": max_poly, "degree": d}
+    res.info = {"max_rel_dev_monomial_passing": max_rel, "max_rel_dev_offlattice_nf": max_poly, "degree": d}
     res.outcome = f"degree={d}"
     return res
 
@@ -301,7 +301,7 @@ def run(ctx):
     cases += [{"kind": "qed", "fn": n, "key": key, "has_nl": h} for n, key, h in QED_FN]
     cases += [{"kind": "dispatch", "fn": n} for n in ("beta_qcd", "beta_qed", "gamma")]
     cases += [{"kind": "constants"}]
-    ctx.run_cases(cases, evaluate)
+    ctx.run_cases(cases, evaluate, parallel=False)
     ctx.rule = (
         "one case per coefficient function (8 QCD nf-polynomials, 4 QED/mixed functions), per dispatcher "
         "(beta_qcd+b_qcd, beta_qed+b_qed, gamma) and one for the constants; inside a case the function is "
